@@ -4,6 +4,12 @@ import argparse
 import os
 import sys
 
+# the library must not depend on the host's time zone: run every check in an unusual one (UTC+5:45, no DST), set before dpapi_ng is imported
+os.environ["TZ"] = "NPT-5:45"
+import time as _time
+
+_time.tzset()
+
 sys.path.insert(0, os.path.dirname(os.path.dirname(os.path.abspath(__file__))))
 sys.setrecursionlimit(20000)
 if hasattr(sys, "set_int_max_str_digits"):
